@@ -16,6 +16,24 @@ MISSED_FIRST = {
  "C11-w2A": "int16 files only (clause `sample-formats`: float32/int32 with metadata added)", "C12-w2A": "offset entry point of the NP2.1 path not exercised (clause `sub-range` added)",
  "C13-w2A": "each extraction used its own path (a second, different recording at the same path in the same process added)",
  "C16-w2A": "the two rules were only exercised one at a time (clause `both-rules` added)", "C18-w2A": "one sampling interval per process (clause `filter-sequences` added)",
+ "C01-w3B": "every read was compared at once (clause `kept-results`: arrays returned earlier are re-checked after later reads)",
+ "C02-w3B": "in-place decompression onto an existing .bin was not an enabled event (now enabled: refusal without change, or completion)",
+ "C03-w3B": "a fresh converter per run (clause `rerun`: forced re-split on the same / a fresh object, then reconstruct)",
+ "C04-w3A": "shank numbers were 0..k-1 and the NP2.4_shank key was not part of the validity predicate (shanks {1,3}; key and stream type checked)",
+ "C05-w3B": "no dead/noisy label together with an ADC-skewed stripe and a per-channel criterion (patterns with labels 1/2 added to `labels-anywhere`)",
+ "C06-w3A": "whitening matrices were symmetric (cyclic permutation and bidiagonal matrices added)",
+ "C06-w3B": "one header per process (two runs in one process whose headers differ only by their sampling delays added)",
+ "C07-w3B": "the array of per-trace shifts was never reused (reuse over blocks of different lengths added to `history`)",
+ "C09-w3B": "parse/write only (clause `used`: parse, derive through the Reader, write, parse)",
+ "C10-w3B": "every decode used a fresh array (case `twice`: same int16 array decoded repeatedly, input compared afterwards)",
+ "C11-w3A": ".ch always written with the metadata's rate (streams compressed at the nominal rate, 5000-61003 samples, added)",
+ "C11-w3B": "readers were always opened at construction (clause `deferred-open` added)",
+ "C12-w3A": "four window sizes only (clause `window-sweep`: every multiple of 12 from 588 to 1320, thorough to 20000)",
+ "C12-w3B": "no forced re-conversion in C12 (clause `rerun` added; C04 already caught it)",
+ "C15-w3B": "one geometry per label vector and process (mode `geometry-sequence` added)",
+ "C16-w3A": "slew steps never crossed zero (zero-crossing steps added)", "C16-w3B": "range array never reused between calls (repeated call with the same array added)",
+ "C18-w3B": "frequency scale never edited by a caller between two requests (added to `filter-sequences`)",
+ "C19-w3B": "each map evaluated right after its own fit (clause `kept-maps` added)",
  "C19-w2B": "trains too short for drift x duration to exceed the coarse bin (clause `long-trains` added)", "C20-w2A": "real-valued random abscissae only (clause `savgol-lattice` added)",
 }
 rows = []
